@@ -154,7 +154,7 @@ func recvPkg(t types.Type) *types.Package {
 }
 
 func (e *Engine) isBlackhole(path string) bool {
-	if path == "" {
+	if path == "" || path == "net/url" {
 		return false
 	}
 	for _, b := range e.blackhole {
